@@ -81,7 +81,19 @@ def main():
         sh(["git", "-C", "/repo", "worktree", "remove", "--force", wt])
         shutil.rmtree(wt, ignore_errors=True)
         shutil.rmtree(scratch, ignore_errors=True)
-    json.dump(out, open(os.path.join(seed, "eval.json"), "w"), indent=1)
+    ej = os.path.join(seed, "eval.json")
+    if os.path.exists(ej):                      # accumulate results of several invocations
+        try:
+            prev = json.load(open(ej))
+            for k, v in prev.items():
+                if k == "checks":
+                    out["checks"] = dict(v, **out["checks"])
+                elif k not in out:
+                    out[k] = v
+        except ValueError:
+            pass
+    out["repo_head"] = sh(["git", "-C", "/repo", "rev-parse", "--short", "HEAD"]).stdout.strip()
+    json.dump(out, open(ej, "w"), indent=1)
     print(json.dumps(out))
     return 0
 
